@@ -333,6 +333,37 @@ class Sde(Bundle):
             raise Viol('%s: sector %d (count %d) processed as call %d differs from the one-shot function' % (self.name, i, n, pos + 1))
         return pos + 1
 
+# ------------------------------------------------------------------ belt-fmt: one state, many words
+class Fmt(Bundle):
+    """beltFMTStart once, then StepE / StepD per word, each with its own synchro value (NULL = zero by the header's remark):
+    every result must equal the one-shot beltFMTEncr/Decr of that word, whatever was processed before with whichever
+    synchro value, and wherever the state moved"""
+    pre = 'beltFMT'
+    def __init__(self, mod, count, depth, key=KEY):
+        self.mod, self.count, self.depth, self.key = mod, count, depth, key
+        self.name = 'beltFMT[mod %d, count %d]' % (mod, count)
+        self.menu = [(d, iv) for d in (False, True) for iv in (None, bytes(16), IV, b'\xff' * 16)]
+    def keep(self, L):
+        return L.sz('beltFMT_keep', self.mod, self.count)
+    def start(self, L, A):
+        st = A.buf(self.keep(L), 0xA5)
+        L.call('beltFMTStart', st, self.mod, self.count, A.buf(self.key), len(self.key))
+        return st
+    def trans(self, pos):
+        return [] if pos >= self.depth else [('word', i) for i in range(len(self.menu))]
+    def apply(self, L, A, st, pos, label, i):
+        import struct
+        decr, iv = self.menu[i]
+        x = [((j + pos) * 7919 + 3 * i + 1) % self.mod for j in range(self.count)]
+        want = one(L, 'beltFMTDecr' if decr else 'beltFMTEncr', mod=self.mod, src=x, key=self.key, iv=iv)['dest']
+        b = A.buf(struct.pack('<%dH' % self.count, *x))
+        L.call('beltFMTStepD' if decr else 'beltFMTStepE', b, A.buf(iv) if iv is not None else None, st)
+        got = list(struct.unpack('<%dH' % self.count, b.get()))
+        if got != list(want):
+            raise Viol('%s: Step%s with iv %s as call %d differs from the one-shot function' % (
+                self.name, 'D' if decr else 'E', 'NULL' if iv is None else iv.hex(), pos + 1))
+        return pos + 1
+
 # ------------------------------------------------------------------ belt-keyrep: one state, many derived keys
 class Krp(Bundle):
     pre = 'beltKRP'
@@ -508,6 +539,7 @@ def bundles(tier):
     bs += [Hotp(6, b'\xff' * 7 + b'\xfe', 3), Hotp(8, bytes(8), 2 if q else 3)]
     bs += [Ocra('OCRA-1:HOTP-HBELT-8:C-QN08-PHBELT', 2 if q else 3, True), Ocra('OCRA-1:HOTP-HBELT-6:QA10-T1M', 2 if q else 3, False),
            Ocra('OCRA-1:HOTP-HBELT-9:QH64-S064', 2, False)]
+    bs += [Fmt(10, 9, 2 if q else 3), Fmt(65536, 2, 2), Fmt(257, 21, 2)] + ([] if q else [Fmt(2, 40, 2), Fmt(49667, 320, 2)])
     bs += [Sde(False, 2 if q else 3), Sde(True, 2 if q else 3), Krp(32, 2 if q else 3), Krp(24, 2), Krp(16, 2), Totp(6, 2), Totp(8, 1 if q else 2)]
     for cmd in ('Absorb', 'Squeeze', 'Encr', 'Decr'):
         for (l, d) in (((128, 1),) if q else ((128, 1), (192, 2), (256, 1))):
